@@ -72,7 +72,7 @@ PROPS = {
              "is replayed by a third party as MsgSubmitBadSignatureEvidence — genuine (must be refused), forged timeout / forged estimate (jails the signer), or signed by an unregistered key (refused); "
              "distinct = distinct op text; non-trivial = at least one accepted op",
         trusted_base=[SDK_TRUST, "ECDSA recover/verify soundness and keccak collision freeness: a checkpoint is identified by (token, batch nonce, gas estimate, content variant)",
-                      "bridge re-deployment (new compass id) while a batch is open is outside the property's quantifier and is not generated"],
+                      "bridge re-deployment (new compass id) while a batch is open is outside the property's quantifier and is not generated", "one remote account per validator on the bridge chain (key registry of the model)"],
         assumptions=[],
     ),
     "C11": dict(
